@@ -52,6 +52,8 @@ func cmdGen(args []string) {
 			b = g.behC12()
 		case "C19":
 			b = g.behC19()
+		case "C10":
+			b = g.behC10()
 		default:
 			if fn, ok := genFns[*prop]; ok {
 				b = fn(g)
@@ -739,6 +741,54 @@ func (g *gen) behC19() M {
 	}
 	if g.chance(0.6) {
 		steps = append(steps, send(M{"t": "X"}))
+	}
+	return M{"cfg": cfg, "steps": steps}
+}
+
+// behC10: random concrete limits and declared lengths around them, every
+// message type, random positions in a session.
+func (g *gen) behC10() M {
+	cfg := baseCfg()
+	limits := []int{16, 17, 31, 64, 100, 4095, 4096, 4097, 8191, 8192, 8193, 65536}
+	L := limits[g.rng.Intn(len(limits))]
+	cfg["limit"] = L
+	cfg["term"] = "ok"
+	steps := []any{send(M{"t": "Startup", "term": true, "kvs": []any{M{"k": "user", "v": "u"}}})}
+	types := []string{"Q", "P", "B", "D", "E", "C", "H", "S", "X", "d", "c", "f", "p", "U"}
+	n := 1 + g.rng.Intn(8)
+	for i := 0; i < n; i++ {
+		var m M
+		switch g.rng.Intn(10) {
+		case 0, 1, 2:
+			q := g.trivialQ()
+			if run.I(q, "id") > 99 {
+				q["id"] = 99
+				run.AsM(q["stmts"].([]any)[0])["id"] = 99
+			}
+			m = M{"t": "Q", "q": q, "fit": g.pick("L", "Lm1", "small")}
+		case 3, 4, 5, 6:
+			over := []int{1, 2, L - 1, L, L + 1, 2 * L, 2*L + 1, 3*L + 7}[g.rng.Intn(8)]
+			if over < 1 {
+				over = 1
+			}
+			m = M{"t": "Big", "ty": types[g.rng.Intn(len(types))], "over": over}
+		case 7:
+			m = M{"t": "Tiny", "ty": g.pick("Q", "P", "S", "X", "B"), "declared": g.rng.Intn(4)}
+		case 8:
+			m = M{"t": "S"}
+		default:
+			m = M{"t": "H"}
+		}
+		st := send(m)
+		if g.chance(0.3) {
+			st["nowait"] = true
+		}
+		steps = append(steps, st)
+	}
+	if g.chance(0.2) {
+		steps = append(steps, send(M{"t": "Huge", "ty": g.pick("Q", "B", "d"), "declared": g.pick("2^31", "2^32-5", "2^32-1"), "sent": g.rng.Intn(40)}))
+	} else {
+		steps = append(steps, send(M{"t": "S"}))
 	}
 	return M{"cfg": cfg, "steps": steps}
 }
